@@ -97,7 +97,11 @@ func flattenBody(p *packages.Package, fd *ast.FuncDecl, subst map[string]string,
 			out = append(out, flatStmt{"end-for", x})
 		case *ast.SwitchStmt:
 			emit(x, "switch", x.Init, x.Tag)
-			for _, cc := range x.Body.List {
+			clauses := x.Body.List
+			if oc := orderedClauses(p, x.Body, x.Tag != nil); oc != nil {
+				clauses = oc
+			}
+			for _, cc := range clauses {
 				cl := cc.(*ast.CaseClause)
 				var es []ast.Node
 				for _, e := range cl.List {
@@ -109,7 +113,11 @@ func flattenBody(p *packages.Package, fd *ast.FuncDecl, subst map[string]string,
 			out = append(out, flatStmt{"end-switch", x})
 		case *ast.TypeSwitchStmt:
 			emit(x, "typeswitch", x.Init, x.Assign)
-			for _, cc := range x.Body.List {
+			tclauses := x.Body.List
+			if oc := orderedClauses(p, x.Body, true); oc != nil {
+				tclauses = oc
+			}
+			for _, cc := range tclauses {
 				cl := cc.(*ast.CaseClause)
 				var es []ast.Node
 				for _, e := range cl.List {
